@@ -350,7 +350,11 @@ func (tc *typechecker) checkShortVariableDeclaration(node *ast.Assignment) {
 			case isAlreadyDeclared[node.Lhs[i]]:
 				lh := tc.checkIdentifier(node.Lhs[i].(*ast.Identifier), false)
 				tc.mustBeAssignableTo(ti, expr, lh.Type, false, nil)
-				ti.setValue(lh.Type)
+				if ti.Nil() { // x, y := nil, 1 with x already declared
+					tc.compilation.typeInfos[nodeRhs[i]] = tc.nilOf(lh.Type)
+				} else {
+					ti.setValue(lh.Type)
+				}
 			case ti.Nil():
 				panic(tc.errorf(expr, "use of untyped nil"))
 			case j == 0 || ti.Untyped():
